@@ -85,50 +85,78 @@ theorem attrGet_cons_ne {a : QName × Str} {as : AttrList} {n : Str} (h : a.1.te
 
 theorem typeWord_ne_style : (typeWord == styleWord) = false := by decide
 
-/-- `attrs.get('type')` after the attribute loop, when the `type` values hold no character
-    reference and `type` is not configured as a URI attribute: the value of the input if `type`
-    is a safe attribute, nothing otherwise -/
+theorem stripRefsD_eq {s v : Str} (h : stripRefs s = .ok v) : stripRefsD s = v := by
+  unfold stripRefsD; rw [h]
+
+/-- `attrs.get('type')` after the attribute loop, when `type` is not configured as a URI
+    attribute: the decoded value of the input's (first) `type` attribute if `type` is a safe
+    attribute, nothing otherwise — exactly the text `is_safe_elem` compares since wave 4 -/
 theorem sanAttrs_attrGet_type {cfg : Cfg} (hu : cfg.uriAttrs.contains typeWord = false) :
-    ∀ (as r : AttrList), (∀ a ∈ as, a.1.text = typeWord → stripentities a.2 = .ok a.2) →
-      sanAttrs cfg as = .ok r →
-      attrGet r typeWord = if cfg.safeAttrs.contains typeWord then attrGet as typeWord else [] := by
+    ∀ (as r : AttrList), sanAttrs cfg as = .ok r →
+      (∀ a ∈ as, a.1.text ≠ typeWord) ∧ attrGet r typeWord = [] ∨
+      (∃ a ∈ as, a.1.text = typeWord) ∧
+        attrGet r typeWord = if cfg.safeAttrs.contains typeWord then stripRefsD (attrGet as typeWord) else [] := by
   intro as
   induction as with
   | nil =>
-    intro r _ h
+    intro r h
     simp [sanAttrs] at h; subst h
-    simp [attrGet]
+    left; simp [attrGet]
   | cons a as ih =>
-    intro r hst h
+    intro r h
     obtain ⟨x, hx⟩ := sanAttr_ok cfg a
     obtain ⟨t, ht⟩ := sanAttrs_ok cfg as
-    have iht := ih t (fun b hb => hst b (by simp [hb])) ht
+    have iht := ih t ht
     unfold sanAttrs at h
     simp only [hx, ht, ok_bind, pure_eq_ok] at h
     by_cases hn : a.1.text = typeWord
     · -- the first `type` attribute
-      have hv := stripRefs_of_stable (hst a (by simp) hn)
+      right
+      refine ⟨⟨a, by simp, hn⟩, ?_⟩
+      obtain ⟨v, hv⟩ := stripRefs_ok a.2
       unfold sanAttr at hx
       simp only [hv, ok_bind, hn, hu, typeWord_ne_style, Bool.false_eq_true, ↓reduceIte] at hx
       by_cases hs : cfg.safeAttrs.contains typeWord = true
       · simp only [hs, Bool.not_true, Bool.false_eq_true, ↓reduceIte, pure_eq_ok, Except.ok.injEq] at hx
         subst hx
         simp at h; subst h
-        rw [if_pos hs, attrGet_cons_eq (by exact hn), attrGet_cons_eq hn]
+        rw [if_pos hs, attrGet_cons_eq (by exact hn), attrGet_cons_eq hn, stripRefsD_eq hv]
       · simp only [hs, Bool.not_false, ↓reduceIte, pure_eq_ok, Except.ok.injEq] at hx
         subst hx
         simp at h; subst h
-        rw [iht, if_neg hs, if_neg hs]
+        rw [if_neg hs]
+        rcases iht with ⟨_, h0⟩ | ⟨_, h1⟩
+        · exact h0
+        · rw [h1, if_neg hs]
     · -- another name: dropped or kept under the same name
       have hskip : attrGet (a :: as) typeWord = attrGet as typeWord := attrGet_cons_ne hn
-      rw [hskip]
-      cases x with
-      | none => simp at h; subst h; exact iht
-      | some b =>
-        simp at h; subst h
-        have hb := (sanAttr_some hx).name
-        have : attrGet (b :: t) typeWord = attrGet t typeWord := attrGet_cons_ne (by rw [hb]; exact hn)
-        rw [this]; exact iht
+      have hr : attrGet r typeWord = attrGet t typeWord := by
+        cases x with
+        | none => simp at h; subst h; rfl
+        | some b =>
+          simp at h; subst h
+          have hb := (sanAttr_some hx).name
+          exact attrGet_cons_ne (by rw [hb]; exact hn)
+      rw [hr, hskip]
+      rcases iht with ⟨h0, h1⟩ | ⟨⟨b, hb, hbn⟩, h1⟩
+      · left
+        refine ⟨?_, h1⟩
+        intro c hc
+        simp only [List.mem_cons] at hc
+        rcases hc with rfl | hc
+        · exact hn
+        · exact h0 c hc
+      · right
+        exact ⟨⟨b, by simp [hb], hbn⟩, h1⟩
+
+theorem attrGet_none {as : AttrList} {n : Str} (h : ∀ a ∈ as, a.1.text ≠ n) : attrGet as n = [] := by
+  induction as with
+  | nil => simp [attrGet]
+  | cons a as ih =>
+    rw [attrGet_cons_ne (h a (by simp))]
+    exact ih (fun b hb => h b (by simp [hb]))
+
+theorem stripRefsD_nil : stripRefsD [] = [] := by decide
 
 theorem pyLower_nil_ne_password : pyLower [] ≠ passwordWord := by decide
 
